@@ -141,6 +141,14 @@ def run(ctx):
              ({"ir": "10000", "or": "1", "recipe": 0}, {}), ({"ir": "96000", "or": "44101", "recipe": 5}, {"SOXR_USE_SIMD": "0"})]
     for i in range(nplans):
         cfgs.append(fixed[i] if i < len(fixed) else cr.gen_config(rng, allow_nonlinear=False))
+    # ratios a fraction of one clock unit (2^-32) away from the values at which the planner rounds, snaps or switches path, with the
+    # cubic stage (no planner in front of it) and with a full plan, in both directions
+    for t in (1.5, 2.0, 3.0, 4.0, 5.0, 6.0, 8.0, 12.0):
+        for eps in (-3.1e-11, 3.1e-11, -1.2e-10):
+            for recipe in (0, 4):
+                cfgs.append(({"ir": repr(t * (1 + eps)), "or": "1", "recipe": recipe}, {}))
+                if recipe == 4 and eps < 0:
+                    cfgs.append(({"ir": "1", "or": repr(t * (1 + eps)), "recipe": recipe}, {}))
     # the planner's fallback from an exact poly-phase table to an interpolated one (rational ratio with L <= 2048 whose table exceeds
     # coef_size_kbytes), with and without the hi-prec clock: the clock clauses must hold on whichever path the planner takes
     for i in range(nplans // 8):
@@ -229,6 +237,15 @@ def run(ctx):
                     found = numeric.confirm_long(cfg, env, as_rational="rational ratio not realised" in p)
             except Exception as ex:          # the measurement itself failing is not evidence either way
                 rep["confirm_error"] = repr(ex)
+        if not found and "rate product" in p:
+            # a plan that runs at another rate hands out frames before their time: search stream lengths for one
+            try:
+                ov = cr.find_eoi_overrun(exe, cfg, env, span=400)
+                if ov:
+                    found = ov["what"] + " - output frame k no longer represents input time k*irate/orate"
+                    rep["ops"] = ov["ops"]
+            except Exception as ex:
+                rep["confirm_error2"] = repr(ex)
         if found:
             rep["measured"] = found
             ctx.violation("C04 fails on the real code: %s; the planner's plan for (%s %s): %s" % (found, cr.create_line(cfg), env, p), rep)
